@@ -83,7 +83,7 @@ theorem setTag_wf (g : Vlan → Vlan) (hg : ∀ v, v.Fits → (g v).Fits ∧ (g 
     · simp only [setTag, hpay, Frame.WF, WFp]
       exact ⟨⟨he.dst, he.src, by simp⟩, (hg _ h0).1, hp⟩
 
-theorem popTag_wf (f : Frame) (hw : f.WF) : stripVlan f = .ok (popTag f) ∧ (popTag f).WF := by
+theorem popTag_wf (f : Frame) (hw : f.WF) : stripVlan {} f = .ok (popTag f) ∧ (popTag f).WF := by
   obtain ⟨he, hp⟩ := hw
   cases hpay : f.pay with
   | vlan v n =>
